@@ -5,6 +5,7 @@ import (
 	"go/ast"
 	"go/token"
 	"go/types"
+	"strings"
 
 	"gverif/cfgx"
 	"gverif/core"
@@ -30,6 +31,11 @@ func RunLenValue(cfgc core.Config, scope core.Scope) *core.Result {
 	}
 	for _, pkg := range pkgs {
 		info := pkg.TypesInfo
+		// the convenience layers (blas64, lapack64) derive dimensions from
+		// their struct and slice arguments by design
+		if !strings.HasSuffix(pkg.PkgPath, "/blas/gonum") && !strings.HasSuffix(pkg.PkgPath, "/lapack/gonum") {
+			continue
+		}
 		for _, file := range pkg.Syntax {
 			if !scope.InFile(file.Pos()) {
 				continue
